@@ -169,5 +169,5 @@ def _worker(ctx, arg):
 
 
 def run(ctx):
-    per = 70 if ctx.tier == "quick" else 800
+    per = 300 if ctx.tier == "quick" else 2500
     ctx.parallel(_worker, [(k, per) for k in range(core.NPROC)])
